@@ -271,3 +271,38 @@ def check_truthy_position(ctx, fi, rule='R-IDIOM/truthy-position'):
                          f'`{c.id}` for truth: position 0 (the first '
                          'element) counts as "not found"')
     return n
+
+
+def check_jump_in_finally(ctx, fi, rule='R-IDIOM/jump-in-finally'):
+    """`return` / `break` / `continue` inside a `finally:` block discards
+    an exception that is on its way out of the `try`: whatever the body
+    raised -- a failed worker, an unwritable path -- the function returns
+    normally."""
+    n = 0
+    for t in ast.walk(fi.node):
+        if not isinstance(t, ast.Try) or not t.finalbody:
+            continue
+        for st in t.finalbody:
+            for x in ast.walk(st):
+                if isinstance(x, (ast.FunctionDef, ast.AsyncFunctionDef,
+                                  ast.Lambda)):
+                    continue
+                bad = isinstance(x, ast.Return)
+                if isinstance(x, (ast.Break, ast.Continue)):
+                    # only if the loop it belongs to is outside the finally
+                    p = getattr(x, '_parent', None)
+                    inside = False
+                    while p is not None and p is not t:
+                        if isinstance(p, (ast.For, ast.While)):
+                            inside = True
+                        p = getattr(p, '_parent', None)
+                    bad = not inside
+                if bad:
+                    n += 1
+                    ctx.touch(fi)
+                    ctx.fail(rule, f'{fi.qual}:{n - 1}', fi.loc(x),
+                             f'`{unparse(x)[:40]}` inside `finally:` '
+                             'swallows any exception raised in the `try` '
+                             'body: the failure is not reported and the '
+                             'function returns normally')
+    return n
